@@ -25,7 +25,7 @@ def parseInitialInterval : Int := 3600000000007
 cfg: `-` | `r:<max>` (ReadConfig) | `c:<cap|n>:<max>` (Connection.Buffer) -/
 def parse (args : List String) : String × String :=
   match args with
-  | [c, e, ewl, cfg, stop, lid, chunks] =>
+  | c :: e :: ewl :: cfg :: stop :: lid :: chunks :: _ =>
     let conn := boolOf c
     let endErr := boolOf e
     let cs := (unhexList chunks).filter (!·.isEmpty)
@@ -43,5 +43,10 @@ def parse (args : List String) : String × String :=
     (s!"{showOuts (evs r.1)} | {showPErr r.2.1} | {r.2.2} | {wait r.1}",
      s!"{showOuts spEvs'} | {spEnd} | {wait sp.1}")
   | _ => ("bad-args", "bad-args")
+
+def handle (op : String) (args : List String) : Option (String × String) :=
+  match op with
+  | "PARSE" => some (parse args)
+  | _ => none
 
 end Driver.ParserD
